@@ -1,22 +1,28 @@
 (* C11: cue tree round trip.  For every tree of text (spelled with literal characters and character references),
-   inline timestamps and b / i / u / c.classes / lang / v elements (annotations with any characters), nested to any
-   depth, parsing its printed WebVTT cue text (tokenizer, then _TextCueParser) yields exactly one span per element
-   carrying that element's style, around exactly the spans of its content, with one span per text line and a br
-   between lines, every text span carrying the begin (relative to the cue) of the last timestamp that precedes it in
-   the cue text, whatever the nesting (tree_roundtrip).  With ruby (tree_ruby_roundtrip): the same for cue texts that
-   also hold ruby elements outside the recorded finding ruby-structure - at the top level of the cue, every base one
-   line of text, no line break directly inside rt.  By induction on the tree, on top of the tokenizer round trip. *)
+   inline timestamps, b / i / u / c.classes / lang / v elements (annotations with any characters) nested to any depth
+   and END TAGS THAT CLOSE NOTHING (SEnd: an end tag that does not name, in lower case, the element it sits in - any end
+   tag at the top level of the cue text), parsing its printed WebVTT cue text (tokenizer, then _TextCueParser) yields
+   exactly one span per element carrying that element's style, around exactly the spans of its content, with one span
+   per text line and a br between lines, every text span carrying the begin (relative to the cue) of the last timestamp
+   that precedes it in the cue text, whatever the nesting; an ignored end tag adds nothing and ends nothing
+   (tree_roundtrip).  Cue texts in which end tags are missing (tree_unclosed_roundtrip): every unclosed element lasts
+   to the end of the cue text.  With ruby (tree_ruby_roundtrip): the same for cue texts that also hold ruby elements
+   outside the recorded finding ruby-structure - at the top level of the cue, every base one line of text, no line
+   break directly inside rt, the last </rt> present or omitted.  By induction on the tree, on top of the tokenizer
+   round trip. *)
 From Coq Require Import QArith.
 From TT Require Import Base.Prelude Gen.VttTables Model.VttTokenizer Model.VttReader Spec.VttSpec.
 From TT Require Import Proofs.C11.Tokenizer Proofs.C11.Time Proofs.C11.Lines.
 Local Open Scope Z_scope.
 
-Inductive snode := SText (ps : list piece) | STs (t : tstamp) | STag (k : ctag) (cs : list snode).
+(* SEnd: an end tag that closes nothing (it does not name the innermost open element) *)
+Inductive snode := SText (ps : list piece) | STs (t : tstamp) | STag (k : ctag) (cs : list snode) | SEnd (name : text).
 
 Lemma snode_ind' (P : snode -> Prop) :
-  (forall t, P (SText t)) -> (forall t, P (STs t)) -> (forall k cs, Forall P cs -> P (STag k cs)) -> forall n, P n.
+  (forall t, P (SText t)) -> (forall t, P (STs t)) -> (forall k cs, Forall P cs -> P (STag k cs)) ->
+  (forall name, P (SEnd name)) -> forall n, P n.
 Proof.
-  intros Ht Hs Hg. fix IH 1. intros [t|t|k cs]; [apply Ht|apply Hs|]. apply Hg.
+  intros Ht Hs Hg He. fix IH 1. intros [t|t|k cs|name]; [apply Ht|apply Hs| |apply He]. apply Hg.
   induction cs as [|c cs IHcs]; constructor; [apply IH|exact IHcs].
 Qed.
 
@@ -27,6 +33,7 @@ Fixpoint nodes_of (n : snode) : list cnode :=
   | SText ps => map piece_node ps
   | STs t => [CTs t]
   | STag k cs => [CTag k (flat_map nodes_of cs)]
+  | SEnd name => [CEnd name]
   end.
 
 (* ---- well-formed trees: what the WebVTT syntax can express uniquely *)
@@ -47,11 +54,16 @@ Fixpoint no_adj (l : list snode) : Prop :=
   | x :: l' => match l' with y :: _ => is_text x && is_text y = false | [] => True end /\ no_adj l'
   | [] => True
   end.
-Inductive wf_node : snode -> Prop :=
-| wf_text ps : text_ok ps -> wf_node (SText ps)
-| wf_tsn t : wf_ts t -> wf_node (STs t)
-| wf_tag k cs : tag_ok k -> Forall wf_node cs -> no_adj cs -> wf_node (STag k cs).
-Definition wf_nodes (ns : list snode) : Prop := Forall wf_node ns /\ no_adj ns.
+(* an end tag is ignored where it does not name (in lower case, as the reader compares) the element it sits in;
+   `enc` is the name of that element, None at the top level of the cue text, where every end tag is ignored *)
+Definition ignored_end (enc : option text) (name : text) : Prop :=
+  Forall (fun c => c <> 62) name /\ match enc with Some t => lower name <> t | None => True end.
+Inductive wf_node : option text -> snode -> Prop :=
+| wf_text enc ps : text_ok ps -> wf_node enc (SText ps)
+| wf_tsn enc t : wf_ts t -> wf_node enc (STs t)
+| wf_tag enc k cs : tag_ok k -> Forall (wf_node (Some (tag_name k))) cs -> no_adj cs -> wf_node enc (STag k cs)
+| wf_end enc name : ignored_end enc name -> wf_node enc (SEnd name).
+Definition wf_nodes (ns : list snode) : Prop := Forall (wf_node None) ns /\ no_adj ns.
 
 Lemma pieces_value_svalue ps : Forall piece_good ps -> pieces_value ps = pieces_svalue ps.
 Proof.
@@ -93,6 +105,7 @@ Fixpoint span_of (pb : Q) (top : bool) (now : option Q) (n : snode) {struct n} :
       | c :: cs' => let '(e1, n1) := span_of pb false now c in let '(e2, n2) := go n1 cs' in (e1 ++ e2, n2)
       end in
     let '(es, now') := go now cs in ([ENode KSpan (expected_attrs k (base_attrs top)) es], now')
+  | SEnd _ => ([], now)                        (* ignored: no element, no effect on what follows *)
   end.
 Fixpoint spans_of (pb : Q) (top : bool) (now : option Q) (ns : list snode) : list elem * option Q :=
   match ns with
@@ -126,6 +139,7 @@ Fixpoint items_of (n : snode) : list item :=
   | SText ps => [IStr ps]
   | STs t => [ITok (TTs (print_ts t))]
   | STag k cs => ITok (start_token k) :: flat_map items_of cs ++ [ITok (TEnd (tag_name k))]
+  | SEnd name => [ITok (TEnd name)]
   end.
 Definition tokens_of (n : snode) : list token := map item_token (items_of n).
 Definition tokens_of_list (ns : list snode) : list token := map item_token (flat_map items_of ns).
@@ -148,12 +162,12 @@ Proof.
   destruct p; reflexivity.
 Qed.
 
-Lemma print_tree : forall n, wf_node n -> flat_map print_node (nodes_of n) = items_print (items_of n).
+Lemma print_tree : forall n enc, wf_node enc n -> flat_map print_node (nodes_of n) = items_print (items_of n).
 Proof.
-  induction n as [ps|t|k cs IH] using snode_ind'; intros W.
+  induction n as [ps|t|k cs IH|name] using snode_ind'; intros enc W.
   - cbn [nodes_of items_of]. rewrite print_pieces. unfold items_print. cbn. rewrite app_nil_r. reflexivity.
   - cbn. rewrite !app_nil_r. reflexivity.
-  - inversion W as [| |? ? Hk Hcs Hadj]; subst.
+  - inversion W as [| |? ? ? Hk Hcs Hadj|]; subst.
     cbn [nodes_of items_of flat_map print_node]. rewrite app_nil_r.
     change (ITok (start_token k) :: flat_map items_of cs ++ [ITok (TEnd (tag_name k))])
       with ([ITok (start_token k)] ++ flat_map items_of cs ++ [ITok (TEnd (tag_name k))]).
@@ -161,13 +175,14 @@ Proof.
     rewrite print_start by exact Hk. f_equal. f_equal.
     clear Hadj Hk W. induction cs as [|c cs IHcs]; [reflexivity|].
     inversion IH; subst. inversion Hcs; subst.
-    cbn [flat_map]. rewrite flat_map_app, items_print_app. f_equal; [auto|apply IHcs; assumption].
+    cbn [flat_map]. rewrite flat_map_app, items_print_app. f_equal; [eauto|apply IHcs; assumption].
+  - cbn. rewrite !app_nil_r. reflexivity.
 Qed.
-Lemma print_trees ns : Forall wf_node ns ->
+Lemma print_trees enc ns : Forall (wf_node enc) ns ->
   print_cue_text (flat_map nodes_of ns) = items_print (flat_map items_of ns).
 Proof.
   induction 1 as [|n ns Hn _ IH]; [reflexivity|].
-  unfold print_cue_text in *. cbn [flat_map]. rewrite flat_map_app, items_print_app, IH, print_tree by exact Hn. reflexivity.
+  unfold print_cue_text in *. cbn [flat_map]. rewrite flat_map_app, items_print_app, IH, (print_tree n enc) by exact Hn. reflexivity.
 Qed.
 
 (* ---- the item list of a well-formed tree is in normal form *)
@@ -220,7 +235,7 @@ Proof.
 Qed.
 
 Lemma items_head n : head_istr (items_of n) = is_text n.
-Proof. destruct n as [t|t|k cs]; reflexivity. Qed.
+Proof. destruct n as [t|t|k cs|name]; reflexivity. Qed.
 Lemma last_istr_app : forall a b, b <> [] -> last_istr (a ++ b) = last_istr b.
 Proof.
   induction a as [|x a IH]; intros b Hb; [reflexivity|].
@@ -230,7 +245,7 @@ Proof.
 Qed.
 Lemma items_last n : last_istr (items_of n) = is_text n.
 Proof.
-  destruct n as [t|t|k cs]; [reflexivity|reflexivity|]. cbn [items_of is_text].
+  destruct n as [t|t|k cs|name]; [reflexivity|reflexivity| |reflexivity]. cbn [items_of is_text].
   change (ITok (start_token k) :: flat_map items_of cs ++ [ITok (TEnd (tag_name k))])
     with ((ITok (start_token k) :: flat_map items_of cs) ++ [ITok (TEnd (tag_name k))]).
   rewrite last_istr_app by discriminate. reflexivity.
@@ -238,80 +253,85 @@ Qed.
 Lemma items_nonempty n : items_of n <> [].
 Proof. destruct n; discriminate. Qed.
 
-Lemma nf_nodes : forall ns, Forall (fun n => wf_node n -> nf_items (items_of n)) ns ->
-  Forall wf_node ns -> no_adj ns ->
+Lemma nf_nodes : forall enc ns, Forall (fun n => forall enc, wf_node enc n -> nf_items (items_of n)) ns ->
+  Forall (wf_node enc) ns -> no_adj ns ->
   nf_items (flat_map items_of ns) /\
   head_istr (flat_map items_of ns) = match ns with n :: _ => is_text n | [] => false end.
 Proof.
-  induction ns as [|n ns IH]; intros HP Hw Hadj; [split; [exact I|reflexivity]|].
+  intros enc. induction ns as [|n ns IH]; intros HP Hw Hadj; [split; [exact I|reflexivity]|].
   inversion HP; subst. inversion Hw; subst. destruct Hadj as [Hxy Hadj].
   destruct (IH H2 H4 Hadj) as [Hnf Hhead]. cbn [flat_map]. split.
-  - apply nf_app; [auto|exact Hnf|]. rewrite items_last, Hhead. destruct ns; [apply andb_false_r|exact Hxy].
+  - apply nf_app; [eauto|exact Hnf|]. rewrite items_last, Hhead. destruct ns; [apply andb_false_r|exact Hxy].
   - pose proof (items_nonempty n) as Hne. pose proof (items_head n) as Hh.
     destruct (items_of n) eqn:E; [contradiction|]. exact Hh.
 Qed.
 
-Lemma nf_tree : forall n, wf_node n -> nf_items (items_of n).
+Lemma nf_tree : forall n enc, wf_node enc n -> nf_items (items_of n).
 Proof.
-  induction n as [t|t|k cs IH] using snode_ind'; intros W; inversion W as [? Ht|? Ht|? ? Hk Hcs Hadj]; subst.
+  induction n as [t|t|k cs IH|name] using snode_ind'; intros enc W; inversion W as [? ? Ht|? ? Ht|? ? ? Hk Hcs Hadj|? ? Hn]; subst.
   - cbn [items_of nf_items]. split; [apply nf_text; exact Ht|split; exact I].
   - cbn [items_of nf_items]. split; [split; [apply nf_ts; exact Ht|reflexivity]|split; exact I].
   - cbn [items_of].
-    destruct (nf_nodes cs IH Hcs Hadj) as [Hnf _].
+    destruct (nf_nodes _ cs IH Hcs Hadj) as [Hnf _].
     change (ITok (start_token k) :: flat_map items_of cs ++ [ITok (TEnd (tag_name k))])
       with ([ITok (start_token k)] ++ flat_map items_of cs ++ [ITok (TEnd (tag_name k))]).
     apply nf_app.
     + cbn. split; [split; [apply nf_start; exact Hk|apply start_not_string]|split; exact I].
     + apply nf_app; [exact Hnf|cbn; split; [apply nf_end|split; exact I]|apply andb_false_r].
     + reflexivity.
+  - cbn [items_of nf_items]. split; [apply nf_end_tag; apply Hn|split; exact I].
 Qed.
-Lemma nf_trees ns : wf_nodes ns -> nf_items (flat_map items_of ns).
+Lemma nf_forest enc ns : Forall (wf_node enc) ns -> no_adj ns -> nf_items (flat_map items_of ns).
 Proof.
-  intros [Hw Hadj]. apply nf_nodes; [|exact Hw|exact Hadj].
+  intros Hw Hadj. apply (nf_nodes enc); [|exact Hw|exact Hadj].
   apply Forall_forall. intros n _. apply nf_tree.
 Qed.
+Lemma nf_trees ns : wf_nodes ns -> nf_items (flat_map items_of ns).
+Proof. intros [Hw Hadj]. apply (nf_forest None); assumption. Qed.
 
 (* ---- the parser on the tokens of a tree *)
+(* the name of the innermost open tag (self.open_tags[-1][0]) *)
+Definition top_tag (s : pstate) : option text := match p_stack s with [] => None | f :: _ => Some (frame_tag f) end.
 (* the current parent is the paragraph or a span *)
 Definition regular (s : pstate) : Prop :=
-  p_above s = 0 /\ match p_stack s with [] => True | FNode KSpan _ _ :: _ => True | _ => False end.
-(* the current parent is an rt element *)
+  match p_stack s with [] => True | FNode _ KSpan _ _ :: _ => True | _ => False end.
+(* the current parent is the rt element of the open ruby, opened by <rt> directly inside <ruby> *)
 Definition in_rt (s : pstate) : Prop :=
-  p_above s = 0 /\ match p_stack s with FNode KRt _ _ :: _ => True | _ => False end.
+  match p_stack s with FNode tg KRt _ _ :: FRuby tg2 _ _ :: _ => tg = s_rt /\ tg2 = s_ruby | _ => False end.
 Definition add_all (es : list elem) (s : pstate) : pstate := fold_left (fun s e => add_leaf e s) es s.
-Definition set_begin (b : option Q) (s : pstate) : pstate := mkP (p_root s) (p_stack s) (p_above s) (p_ruby s) b.
+Definition set_begin (b : option Q) (s : pstate) : pstate := mkP (p_root s) (p_stack s) (p_ruby s) b.
 (* the effect of a parsed forest: its elements are appended to the current parent, self.begin becomes its last time *)
 Definition apply_res (r : list elem * option Q) (s : pstate) : pstate := set_begin (snd r) (add_all (fst r) s).
 
 Lemma add_leaf_facts e s :
-  p_above (add_leaf e s) = p_above s /\ parent_is_p (add_leaf e s) = parent_is_p s /\ p_begin (add_leaf e s) = p_begin s /\
-  p_ruby (add_leaf e s) = p_ruby s /\
+  parent_is_p (add_leaf e s) = parent_is_p s /\ p_begin (add_leaf e s) = p_begin s /\
+  p_ruby (add_leaf e s) = p_ruby s /\ top_tag (add_leaf e s) = top_tag s /\
   match p_stack s with
   | [] => p_stack (add_leaf e s) = []
-  | FNode k a d :: st => p_stack (add_leaf e s) = FNode k a (d ++ [e]) :: st
-  | FRuby b t :: st => p_stack (add_leaf e s) = FRuby b (t ++ [e]) :: st
+  | FNode tg k a d :: st => p_stack (add_leaf e s) = FNode tg k a (d ++ [e]) :: st
+  | FRuby tg b t :: st => p_stack (add_leaf e s) = FRuby tg b t :: st
   end.
 Proof.
-  destruct s as [root st ab rb bg]. unfold add_leaf, attach, parent_is_p. cbn [p_above p_ruby p_stack p_root p_begin].
-  destruct st as [|[k a d|b t] st]; cbn [p_above p_ruby p_stack p_begin is_nil]; repeat split; reflexivity.
+  destruct s as [root st rb bg]. unfold add_leaf, attach, parent_is_p, top_tag. cbn [p_ruby p_stack p_root p_begin].
+  destruct st as [|[tg k a d|tg b t] st]; cbn [p_ruby p_stack p_begin is_nil frame_tag]; repeat split; reflexivity.
 Qed.
 Lemma regular_add_leaf e s : regular s -> regular (add_leaf e s).
 Proof.
-  intros [A T]. destruct (add_leaf_facts e s) as (A' & _ & _ & _ & S'). split; [rewrite A'; exact A|].
-  destruct (p_stack s) as [|[[| |] a d|b t] st]; try contradiction; rewrite S'; exact I.
+  unfold regular. intros T. destruct (add_leaf_facts e s) as (_ & _ & _ & _ & S').
+  destruct (p_stack s) as [|[tg [| |] a d|tg b t] st]; try contradiction; rewrite S'; exact I.
 Qed.
 Lemma in_rt_add_leaf e s : in_rt s -> in_rt (add_leaf e s).
 Proof.
-  intros [A T]. destruct (add_leaf_facts e s) as (A' & _ & _ & _ & S'). split; [rewrite A'; exact A|].
-  destruct (p_stack s) as [|[[| |] a d|b t] st]; try contradiction; rewrite S'; exact I.
+  unfold in_rt. intros T. destruct (add_leaf_facts e s) as (_ & _ & _ & _ & S').
+  destruct (p_stack s) as [|[tg [| |] a d|tg b t] st]; try contradiction; rewrite S'; exact T.
 Qed.
 Lemma add_all_facts es : forall s,
-  parent_is_p (add_all es s) = parent_is_p s /\ p_begin (add_all es s) = p_begin s /\ p_above (add_all es s) = p_above s /\
-  p_ruby (add_all es s) = p_ruby s.
+  parent_is_p (add_all es s) = parent_is_p s /\ p_begin (add_all es s) = p_begin s /\
+  p_ruby (add_all es s) = p_ruby s /\ top_tag (add_all es s) = top_tag s.
 Proof.
   induction es as [|e es IH]; intros s; [repeat split; reflexivity|].
-  cbn [add_all fold_left]. destruct (add_leaf_facts e s) as (A & P & B & R & _).
-  destruct (IH (add_leaf e s)) as (P2 & B2 & A2 & R2). unfold add_all in *. rewrite P2, B2, A2, R2. repeat split; assumption.
+  cbn [add_all fold_left]. destruct (add_leaf_facts e s) as (P & B & R & T & _).
+  destruct (IH (add_leaf e s)) as (P2 & B2 & R2 & T2). unfold add_all in *. rewrite P2, B2, R2, T2. repeat split; assumption.
 Qed.
 Lemma regular_add_all es : forall s, regular s -> regular (add_all es s).
 Proof. induction es as [|e es IH]; intros s R; [exact R|]. cbn [add_all fold_left]. apply IH. apply regular_add_leaf. exact R. Qed.
@@ -322,14 +342,15 @@ Proof. unfold add_all. apply fold_left_app. Qed.
 Lemma set_begin_same s : set_begin (p_begin s) s = s.
 Proof. destruct s; reflexivity. Qed.
 Lemma add_leaf_set_begin e b s : add_leaf e (set_begin b s) = set_begin b (add_leaf e s).
-Proof. destruct s as [r st ab rb bg]. unfold add_leaf, set_begin. cbn [p_root p_stack p_above p_ruby p_begin]. destruct (attach e r st). reflexivity. Qed.
+Proof. destruct s as [r st rb bg]. unfold add_leaf, set_begin. cbn [p_root p_stack p_ruby p_begin]. destruct (attach e r st). reflexivity. Qed.
 Lemma add_all_set_begin es : forall b s, add_all es (set_begin b s) = set_begin b (add_all es s).
 Proof.
   induction es as [|e es IH]; intros b s; [reflexivity|]. cbn [add_all fold_left].
   rewrite add_leaf_set_begin. apply IH.
 Qed.
-Lemma apply_facts r s : parent_is_p (apply_res r s) = parent_is_p s /\ p_begin (apply_res r s) = snd r.
-Proof. unfold apply_res. destruct (add_all_facts (fst r) s) as (P & _). split; [exact P|reflexivity]. Qed.
+Lemma apply_facts r s :
+  parent_is_p (apply_res r s) = parent_is_p s /\ p_begin (apply_res r s) = snd r /\ top_tag (apply_res r s) = top_tag s.
+Proof. unfold apply_res. destruct (add_all_facts (fst r) s) as (P & _ & _ & T). repeat split; [exact P|exact T]. Qed.
 Lemma regular_apply r s : regular s -> regular (apply_res r s).
 Proof. intros R. apply (regular_add_all (fst r)) in R. exact R. Qed.
 Lemma in_rt_apply r s : in_rt s -> in_rt (apply_res r s).
@@ -342,16 +363,21 @@ Qed.
 Lemma apply_res_nil s : apply_res ([], p_begin s) s = s.
 Proof. unfold apply_res. cbn [fst snd add_all fold_left]. apply set_begin_same. Qed.
 
+(* the parent is the paragraph or a span, and the innermost open tag is `enc` *)
+Definition at_tag (enc : option text) (s : pstate) : Prop := regular s /\ top_tag s = enc.
+Lemma at_tag_apply enc r s : at_tag enc s -> at_tag enc (apply_res r s).
+Proof. intros [R T]. split; [apply regular_apply; exact R|]. destruct (apply_facts r s) as (_ & _ & T'). rewrite T'. exact T. Qed.
+
 (* a span may be added to the paragraph, a span or an rt *)
 Lemma push_span_ok s : regular s \/ in_rt s -> push_check s CSpan = None.
 Proof.
-  destruct s as [root st ab rb bg]. unfold regular, in_rt, push_check. cbn [p_above p_ruby p_stack].
-  intros [[-> T]|[-> T]]; cbn; destruct st as [|[[| |] a d|b t] st]; try reflexivity; contradiction.
+  destruct s as [root st rb bg]. unfold regular, in_rt, push_check. cbn [p_ruby p_stack].
+  intros [T|T]; destruct st as [|[tg [| |] a d|tg b t] st]; try reflexivity; contradiction.
 Qed.
 Lemma push_br_ok s : regular s -> push_check s CBr = None.
 Proof.
-  destruct s as [root st ab rb bg]. unfold regular, push_check. cbn [p_above p_ruby p_stack].
-  intros [-> T]; cbn; destruct st as [|[[| |] a d|b t] st]; try reflexivity; contradiction.
+  destruct s as [root st rb bg]. unfold regular, push_check. cbn [p_ruby p_stack].
+  intros T; destruct st as [|[tg [| |] a d|tg b t] st]; try reflexivity; contradiction.
 Qed.
 
 Lemma make_span_attrs_eq s : make_span_attrs s = base_attrs (parent_is_p s).
@@ -361,10 +387,9 @@ Lemma push_line_ok l s : regular s \/ in_rt s ->
   push_text_line l s = inl (add_leaf (ENode KSpan (with_begin (p_begin s) (base_attrs (parent_is_p s))) [EText l]) s).
 Proof.
   intros R. unfold push_text_line.
-  replace (p_above s =? 3) with false by (destruct R as [[-> _]|[-> _]]; reflexivity).
   rewrite make_span_attrs_eq. rewrite (push_span_ok s R).
-  destruct (p_stack s) as [|[k a d|b t] st] eqn:Es; try reflexivity.
-  exfalso. destruct R as [[_ T]|[_ T]]; rewrite Es in T; exact T.
+  destruct (p_stack s) as [|[tg k a d|tg b t] st] eqn:Es; try reflexivity.
+  exfalso. destruct R as [T|T]; [unfold regular in T|unfold in_rt in T]; rewrite Es in T; exact T.
 Qed.
 
 Lemma push_lines : forall ls first s, regular s ->
@@ -375,13 +400,13 @@ Proof.
   destruct first.
   - rewrite push_line_ok by (left; exact R).
     pose proof (regular_add_leaf (ENode KSpan (with_begin (p_begin s) (base_attrs (parent_is_p s))) [EText l]) s R) as R1.
-    destruct (add_leaf_facts (ENode KSpan (with_begin (p_begin s) (base_attrs (parent_is_p s))) [EText l]) s) as (_ & P1 & B1 & _).
+    destruct (add_leaf_facts (ENode KSpan (with_begin (p_begin s) (base_attrs (parent_is_p s))) [EText l]) s) as (P1 & B1 & _).
     rewrite IH by exact R1. rewrite P1, B1. reflexivity.
   - rewrite push_br_ok by exact R.
-    pose proof (regular_add_leaf EBr s R) as R0. destruct (add_leaf_facts EBr s) as (_ & P0 & B0 & _).
+    pose proof (regular_add_leaf EBr s R) as R0. destruct (add_leaf_facts EBr s) as (P0 & B0 & _).
     rewrite push_line_ok by (left; exact R0). rewrite P0, B0.
     pose proof (regular_add_leaf (ENode KSpan (with_begin (p_begin s) (base_attrs (parent_is_p s))) [EText l]) _ R0) as R1.
-    destruct (add_leaf_facts (ENode KSpan (with_begin (p_begin s) (base_attrs (parent_is_p s))) [EText l]) (add_leaf EBr s)) as (_ & P1 & B1 & _).
+    destruct (add_leaf_facts (ENode KSpan (with_begin (p_begin s) (base_attrs (parent_is_p s))) [EText l]) (add_leaf EBr s)) as (P1 & B1 & _).
     rewrite IH by exact R1. rewrite P1, B1, P0, B0. reflexivity.
 Qed.
 
@@ -392,33 +417,43 @@ Proof.
   cbn [split_on_aux]. replace (c =? 10) with false by lia. rewrite IH by exact Ht. rewrite <- app_assoc. reflexivity.
 Qed.
 
-Lemma handle_tokens_app pb att : forall a b s,
-  handle_tokens pb att (a ++ b) s =
-  match handle_tokens pb att a s with inr e => inr e | inl s' => handle_tokens pb att b s' end.
+Lemma handle_tokens_app pb : forall a b s,
+  handle_tokens pb (a ++ b) s =
+  match handle_tokens pb a s with inr e => inr e | inl s' => handle_tokens pb b s' end.
 Proof.
   induction a as [|t a IH]; intros b s; [reflexivity|]. cbn [app handle_tokens].
-  destruct (handle_token pb att t s); [apply IH|reflexivity].
+  destruct (handle_token pb t s); [apply IH|reflexivity].
 Qed.
 
-Lemma add_all_top es : forall r k a d st ab rb bg,
-  add_all es (mkP r (FNode k a d :: st) ab rb bg) = mkP r (FNode k a (d ++ es) :: st) ab rb bg.
+Lemma add_all_top es : forall r tg k a d st rb bg,
+  add_all es (mkP r (FNode tg k a d :: st) rb bg) = mkP r (FNode tg k a (d ++ es) :: st) rb bg.
 Proof.
   induction es as [|e es IH]; intros; [rewrite app_nil_r; reflexivity|].
-  cbn [add_all fold_left]. unfold add_leaf at 2. cbn [attach p_root p_stack p_above p_ruby p_begin].
-  fold (add_all es (mkP r (FNode k a (d ++ [e]) :: st) ab rb bg)). rewrite IH, <- app_assoc. reflexivity.
+  cbn [add_all fold_left]. unfold add_leaf at 2. cbn [attach p_root p_stack p_ruby p_begin].
+  fold (add_all es (mkP r (FNode tg k a (d ++ [e]) :: st) rb bg)). rewrite IH, <- app_assoc. reflexivity.
 Qed.
-(* closing an element whose content was the forest r: the element is appended to its parent, self.begin stays *)
-Lemma pop_open r k a s : pop (apply_res r (open_node k a s)) = apply_res ([ENode k a (fst r)], snd r) s.
+(* closing a span whose content was the forest r: the element is appended to its parent, self.begin stays *)
+Lemma pop_open r tg a s : pop (apply_res r (open_node tg KSpan a s)) = apply_res ([ENode KSpan a (fst r)], snd r) s.
 Proof.
-  destruct s as [rt st ab rb bg]. unfold apply_res, open_node, set_begin. cbn [p_root p_stack p_above p_ruby p_begin fst snd].
-  rewrite add_all_top. cbn [add_all fold_left]. unfold pop, add_leaf. cbn [p_root p_stack p_above p_ruby p_begin close_frame app].
-  destruct (attach (ENode k a (fst r)) rt st). reflexivity.
+  destruct s as [rt st rb bg]. unfold apply_res, open_node, set_begin. cbn [p_root p_stack p_ruby p_begin fst snd].
+  rewrite add_all_top. cbn [add_all fold_left]. unfold pop, add_leaf, attach_closed. cbn [p_root p_stack p_ruby p_begin close_frame app].
+  destruct (attach (ENode KSpan a (fst r)) rt st). reflexivity.
 Qed.
-Lemma open_stack r k a s : p_stack (apply_res r (open_node k a s)) = FNode k a (fst r) :: p_stack s.
+Lemma open_stack r tg k a s : p_stack (apply_res r (open_node tg k a s)) = FNode tg k a (fst r) :: p_stack s.
 Proof.
-  destruct s as [rt st ab rb bg]. unfold apply_res, open_node, set_begin. cbn [p_root p_stack p_above p_ruby p_begin fst snd].
+  destruct s as [rt st rb bg]. unfold apply_res, open_node, set_begin. cbn [p_root p_stack p_ruby p_begin fst snd].
   rewrite add_all_top. reflexivity.
 Qed.
+
+Lemma text_eqb_refl t : text_eqb t t = true.
+Proof. apply text_eqb_eq. reflexivity. Qed.
+Lemma text_eqb_neq a b : a <> b -> text_eqb a b = false.
+Proof. intros H. destruct (text_eqb a b) eqn:E; [|reflexivity]. apply text_eqb_eq in E. contradiction. Qed.
+
+Lemma lower_tag_name k : lower (tag_name k) = tag_name k.
+Proof. destruct k; reflexivity. Qed.
+Lemma start_token_tag k : match start_token k with TStart tag _ _ => lower tag = tag_name k | _ => False end.
+Proof. destruct k as [| | |[|c cls]|l|n]; reflexivity. Qed.
 
 Lemma style_tag_expected k a :
   match start_token k with
@@ -430,24 +465,23 @@ Proof. destruct k as [| | |[|c cls]|l|n]; reflexivity. Qed.
 Lemma handle_start_tag k s : push_check s CSpan = None ->
   match start_token k with
   | TStart tag cls an =>
-    handle_start tag cls an s = inl (open_node KSpan (expected_attrs k (base_attrs (parent_is_p s))) s)
+    handle_start tag cls an s = inl (open_node (tag_name k) KSpan (expected_attrs k (base_attrs (parent_is_p s))) s)
   | _ => False
   end.
 Proof.
-  intros R. pose proof (style_tag_expected k (make_span_attrs s)) as H.
+  intros R. pose proof (style_tag_expected k (make_span_attrs s)) as H. pose proof (start_token_tag k) as Ht.
   rewrite make_span_attrs_eq in H.
-  destruct k as [| | |[|c cls]|l|n]; cbn [start_token] in *; unfold handle_start;
-    (replace (starts_with s_ruby (lower _)) with false by reflexivity);
-    (replace (starts_with s_rt (lower _)) with false by reflexivity); cbn [andb];
-    rewrite R; rewrite make_span_attrs_eq; rewrite H; reflexivity.
+  destruct (start_token k) as [|tag cls an| |] eqn:E; try contradiction.
+  unfold handle_start. rewrite Ht.
+  replace (starts_with s_ruby (tag_name k)) with false by (destruct k; reflexivity).
+  replace (starts_with s_rt (tag_name k)) with false by (destruct k; reflexivity). cbn [andb].
+  rewrite R. rewrite make_span_attrs_eq. rewrite <- Ht at 2. rewrite H. reflexivity.
 Qed.
 
-Lemma regular_open a s : p_above s = 0 ->
-  regular (open_node KSpan a s) /\ parent_is_p (open_node KSpan a s) = false /\ p_begin (open_node KSpan a s) = p_begin s.
-Proof.
-  intros A. unfold regular, open_node, parent_is_p. cbn [p_above p_ruby p_stack p_begin].
-  repeat split; auto. rewrite A. reflexivity.
-Qed.
+Lemma regular_open tg a s :
+  at_tag (Some tg) (open_node tg KSpan a s) /\ parent_is_p (open_node tg KSpan a s) = false /\
+  p_begin (open_node tg KSpan a s) = p_begin s.
+Proof. unfold at_tag, regular, top_tag, open_node, parent_is_p. cbn [p_ruby p_stack p_begin frame_tag is_nil]. repeat split; auto. Qed.
 
 Lemma handle_ts_print pb t s : wf_ts t ->
   handle_ts pb (print_ts t) s = inl (apply_res ([], ts_begin pb (p_begin s) t) s).
@@ -456,96 +490,234 @@ Proof.
   destruct (Qle_bool pb (Qmake (ts_ms t) 1000)); [reflexivity|]. rewrite set_begin_same. reflexivity.
 Qed.
 
-(* what one node does to the parser state *)
-Definition node_eqn (pb : Q) (att : bool) (n : snode) : Prop := forall rest s, regular s ->
-  handle_tokens pb att (tokens_of n ++ rest) s =
-  handle_tokens pb att rest (apply_res (span_of pb (parent_is_p s) (p_begin s) n) s).
+(* an end tag that does not name the innermost open tag is ignored *)
+Lemma handle_end_ignored enc name s : at_tag enc s -> ignored_end enc name -> handle_end name s = s.
+Proof.
+  intros [R T] [_ Hn]. unfold handle_end. unfold regular in R. unfold top_tag in T.
+  destruct (p_stack s) as [|[tg [| |] a d|tg b t] st]; try contradiction; [reflexivity|].
+  subst enc. cbn [frame_tag]. rewrite text_eqb_neq by (intros E; apply Hn; symmetry; exact E). reflexivity.
+Qed.
+
+(* what one node does to the parser state, the innermost open tag being enc *)
+Definition node_eqn (pb : Q) (enc : option text) (n : snode) : Prop := forall rest s, at_tag enc s ->
+  handle_tokens pb (tokens_of n ++ rest) s =
+  handle_tokens pb rest (apply_res (span_of pb (parent_is_p s) (p_begin s) n) s).
 
 (* a list of nodes, over any class of states that is closed under appending parsed forests *)
-Lemma parse_list pb att (oks : pstate -> Prop) (okn : snode -> Prop) :
+Lemma parse_list pb (oks : pstate -> Prop) (okn : snode -> Prop) :
   (forall r s, oks s -> oks (apply_res r s)) ->
   forall cs, Forall (fun n => okn n -> forall rest s, oks s ->
-                       handle_tokens pb att (tokens_of n ++ rest) s =
-                       handle_tokens pb att rest (apply_res (span_of pb (parent_is_p s) (p_begin s) n) s)) cs ->
+                       handle_tokens pb (tokens_of n ++ rest) s =
+                       handle_tokens pb rest (apply_res (span_of pb (parent_is_p s) (p_begin s) n) s)) cs ->
   Forall okn cs -> forall rest s, oks s ->
-  handle_tokens pb att (tokens_of_list cs ++ rest) s =
-  handle_tokens pb att rest (apply_res (spans_of pb (parent_is_p s) (p_begin s) cs) s).
+  handle_tokens pb (tokens_of_list cs ++ rest) s =
+  handle_tokens pb rest (apply_res (spans_of pb (parent_is_p s) (p_begin s) cs) s).
 Proof.
   intros Hclosed. induction cs as [|c cs IHc]; intros HP Hw rest s R.
   - cbn [tokens_of_list flat_map map app spans_of]. rewrite apply_res_nil. reflexivity.
   - inversion HP; subst. inversion Hw; subst.
     rewrite tokens_of_list_cons. cbn [spans_of]. rewrite <- app_assoc. rewrite H1 by assumption.
     destruct (span_of pb (parent_is_p s) (p_begin s) c) as [e1 n1] eqn:E1.
-    destruct (apply_facts (e1, n1) s) as (P' & B').
+    destruct (apply_facts (e1, n1) s) as (P' & B' & _).
     rewrite IHc; [|assumption|assumption|apply Hclosed; exact R].
     rewrite P', B'. cbn [snd]. destruct (spans_of pb (parent_is_p s) n1 cs) as [e2 n2].
     rewrite apply_res_app. reflexivity.
 Qed.
 
-(* an element: from any state whose current parent accepts a span *)
-Lemma parse_tag pb att k cs : tag_ok k -> Forall wf_node cs -> Forall (fun n => wf_node n -> node_eqn pb att n) cs ->
-  forall rest s, p_above s = 0 -> push_check s CSpan = None ->
-  handle_tokens pb att (tokens_of (STag k cs) ++ rest) s =
-  handle_tokens pb att rest (apply_res (span_of pb (parent_is_p s) (p_begin s) (STag k cs)) s).
+(* an element: from any state whose current parent accepts a span; its own end tag closes it *)
+Lemma parse_tag pb k cs : tag_ok k -> Forall (wf_node (Some (tag_name k))) cs ->
+  Forall (fun n => wf_node (Some (tag_name k)) n -> node_eqn pb (Some (tag_name k)) n) cs ->
+  forall rest s, push_check s CSpan = None ->
+  handle_tokens pb (tokens_of (STag k cs) ++ rest) s =
+  handle_tokens pb rest (apply_res (span_of pb (parent_is_p s) (p_begin s) (STag k cs)) s).
 Proof.
-  intros Hk Hcs IH rest s A Hpush.
+  intros Hk Hcs IH rest s Hpush.
   rewrite tokens_of_tag. cbn [app handle_tokens]. pose proof (handle_start_tag k s Hpush) as Hs.
   destruct (start_token k) as [|tag cls an| |] eqn:Et; try contradiction.
   cbn [handle_token]. rewrite Hs.
   set (a := expected_attrs k (base_attrs (parent_is_p s))).
-  destruct (regular_open a s A) as (R1 & P1 & B1).
+  destruct (regular_open (tag_name k) a s) as (R1 & P1 & B1).
   rewrite <- app_assoc.
-  rewrite (parse_list pb att regular wf_node regular_apply cs IH Hcs _ _ R1). rewrite P1, B1.
+  rewrite (parse_list pb (at_tag (Some (tag_name k))) (wf_node (Some (tag_name k))) (at_tag_apply _) cs IH Hcs _ _ R1). rewrite P1, B1.
   cbn [app handle_tokens handle_token].
   rewrite span_of_tag. destruct (spans_of pb false (p_begin s) cs) as [es now'] eqn:Es.
-  pose proof (regular_apply (es, now') _ R1) as R2.
-  unfold handle_end.
-  replace (p_above (apply_res (es, now') (open_node KSpan a s)) =? 3) with false
-    by (destruct R2 as (-> & _); reflexivity).
-  replace (0 <? p_above (apply_res (es, now') (open_node KSpan a s))) with false
-    by (destruct R2 as (-> & _); reflexivity).
-  rewrite open_stack. rewrite pop_open. reflexivity.
+  unfold handle_end. rewrite open_stack. cbn [frame_tag fst]. rewrite lower_tag_name, text_eqb_refl.
+  rewrite pop_open. reflexivity.
 Qed.
 
-Lemma parse_tree pb att : forall n, wf_node n -> node_eqn pb att n.
+Lemma parse_tree pb : forall n enc, wf_node enc n -> node_eqn pb enc n.
 Proof.
-  induction n as [ps|t|k cs IH] using snode_ind'; intros W rest s R.
-  - inversion W as [? (Hne & Hg & Hv)| |]; subst.
+  induction n as [ps|t|k cs IH|name] using snode_ind'; intros enc W rest s R.
+  - inversion W as [? ? (Hne & Hg & Hv)| | |]; subst.
     unfold tokens_of. cbn [items_of map item_token app handle_tokens handle_token span_of]. unfold handle_string.
     rewrite pieces_value_svalue by exact Hg.
-    rewrite push_lines by exact R. unfold apply_res. cbn [fst snd].
+    rewrite push_lines by (apply R). unfold apply_res. cbn [fst snd].
     rewrite <- add_all_set_begin, set_begin_same. reflexivity.
-  - inversion W as [|? Ht|]; subst.
+  - inversion W as [|? ? Ht| |]; subst.
     unfold tokens_of. cbn [items_of map item_token app handle_tokens handle_token span_of].
     rewrite handle_ts_print by exact Ht. reflexivity.
-  - inversion W as [| |? ? Hk Hcs Hadj]; subst.
-    apply parse_tag; [exact Hk|exact Hcs|exact IH|destruct R as [A _]; exact A|apply push_span_ok; left; exact R].
+  - inversion W as [| |? ? ? Hk Hcs Hadj|]; subst.
+    apply parse_tag; [exact Hk|exact Hcs| |apply push_span_ok; left; apply R].
+    eapply Forall_impl; [|exact IH]. cbn. intros n Hn Wn. apply Hn. exact Wn.
+  - inversion W as [| | |? ? Hn]; subst.
+    unfold tokens_of. cbn [items_of map item_token app handle_tokens handle_token span_of].
+    rewrite (handle_end_ignored enc name s R Hn). rewrite apply_res_nil. reflexivity.
 Qed.
 
-Lemma parse_trees pb att : forall ns, Forall wf_node ns -> forall rest s, regular s ->
-  handle_tokens pb att (tokens_of_list ns ++ rest) s =
-  handle_tokens pb att rest (apply_res (spans_of pb (parent_is_p s) (p_begin s) ns) s).
+Lemma parse_trees pb enc : forall ns, Forall (wf_node enc) ns -> forall rest s, at_tag enc s ->
+  handle_tokens pb (tokens_of_list ns ++ rest) s =
+  handle_tokens pb rest (apply_res (spans_of pb (parent_is_p s) (p_begin s) ns) s).
 Proof.
-  intros ns Hw. apply (parse_list pb att regular wf_node regular_apply); [|exact Hw].
+  intros ns Hw. apply (parse_list pb (at_tag enc) (wf_node enc) (at_tag_apply enc)); [|exact Hw].
   apply Forall_forall. intros n _ W. apply parse_tree. exact W.
 Qed.
 
-Lemma add_all_root es : forall r bg, add_all es (mkP r [] 0 false bg) = mkP (r ++ es) [] 0 false bg.
+Lemma add_all_root es : forall r bg, add_all es (mkP r [] false bg) = mkP (r ++ es) [] false bg.
 Proof.
   induction es as [|e es IH]; intros r bg; [rewrite app_nil_r; reflexivity|].
-  cbn [add_all fold_left]. unfold add_leaf at 2. cbn [attach p_root p_stack p_above p_ruby p_begin].
-  fold (add_all es (mkP (r ++ [e]) [] 0 false bg)). rewrite IH, <- app_assoc. reflexivity.
+  cbn [add_all fold_left]. unfold add_leaf at 2. cbn [attach p_root p_stack p_ruby p_begin].
+  fold (add_all es (mkP (r ++ [e]) [] false bg)). rewrite IH, <- app_assoc. reflexivity.
 Qed.
 
-(* the cue tree theorem for every tree without ruby *)
-Theorem tree_roundtrip pb att ns : wf_nodes ns ->
-  parse_cue_text pb att (print_cue_text (flat_map nodes_of ns)) = inl (fst (spans_of pb true None ns)).
+(* the cue tree theorem for every tree without ruby, end tags that close nothing included *)
+Theorem tree_roundtrip pb ns : wf_nodes ns ->
+  parse_cue_text pb (print_cue_text (flat_map nodes_of ns)) = inl (fst (spans_of pb true None ns)).
 Proof.
-  intros W. unfold parse_cue_text. rewrite print_trees by (apply W).
+  intros W. unfold parse_cue_text. rewrite (print_trees None) by (apply W).
   rewrite tokenizer_items by (apply nf_trees; exact W).
   fold (tokens_of_list ns). rewrite <- (app_nil_r (tokens_of_list ns)).
-  rewrite parse_trees; [|apply W|split; [reflexivity|exact I]].
-  cbn [handle_tokens]. unfold apply_res. cbn [parent_is_p p_above p_stack p_begin Z.eqb is_nil andb].
+  rewrite (parse_trees pb None); [|apply W|split; [exact I|reflexivity]].
+  cbn [handle_tokens]. unfold apply_res. cbn [parent_is_p p_stack p_begin is_nil].
+  rewrite add_all_root. reflexivity.
+Qed.
+
+
+(* ================================================================ elements whose end tag is missing
+   A cue text that ends inside elements: a forest, then optionally a start tag that nothing closes followed by the
+   same again.  (An end tag that names an outer element while an inner one is open is ignored - SEnd - so the outer
+   one is not closed either: this is the general shape of a cue text of text, timestamps, b/i/u/c/lang/v tags and end
+   tags in which some end tags are missing.)  Every unclosed element lasts to the end of the cue text. *)
+Inductive otree := ODone (ns : list snode) | OOpen (ns : list snode) (k : ctag) (inner : otree).
+Fixpoint onodes (t : otree) : list cnode :=
+  match t with
+  | ODone ns => flat_map nodes_of ns
+  | OOpen ns k inner => flat_map nodes_of ns ++ [COpen k (onodes inner)]
+  end.
+Fixpoint oitems (t : otree) : list item :=
+  match t with
+  | ODone ns => flat_map items_of ns
+  | OOpen ns k inner => flat_map items_of ns ++ ITok (start_token k) :: oitems inner
+  end.
+Fixpoint wf_otree (enc : option text) (t : otree) : Prop :=
+  match t with
+  | ODone ns => Forall (wf_node enc) ns /\ no_adj ns
+  | OOpen ns k inner => Forall (wf_node enc) ns /\ no_adj ns /\ tag_ok k /\ wf_otree (Some (tag_name k)) inner
+  end.
+Fixpoint ospans (pb : Q) (top : bool) (now : option Q) (t : otree) : list elem :=
+  match t with
+  | ODone ns => fst (spans_of pb top now ns)
+  | OOpen ns k inner =>
+    let '(es, n1) := spans_of pb top now ns in
+    es ++ [ENode KSpan (expected_attrs k (base_attrs top)) (ospans pb false n1 inner)]
+  end.
+
+Lemma print_otree : forall t enc, wf_otree enc t -> print_cue_text (onodes t) = items_print (oitems t).
+Proof.
+  induction t as [ns|ns k inner IH]; intros enc W.
+  - apply (print_trees enc). apply W.
+  - destruct W as (Hw & _ & Hk & Hi). cbn [onodes oitems]. unfold print_cue_text in *.
+    rewrite flat_map_app, items_print_app. fold (print_cue_text (flat_map nodes_of ns)). rewrite (print_trees enc) by exact Hw.
+    f_equal. cbn [flat_map print_node]. rewrite app_nil_r. rewrite (IH _ Hi).
+    rewrite <- print_start by exact Hk. reflexivity.
+Qed.
+Lemma nf_otree : forall t enc, wf_otree enc t -> nf_items (oitems t).
+Proof.
+  induction t as [ns|ns k inner IH]; intros enc W.
+  - apply (nf_forest enc); apply W.
+  - destruct W as (Hw & Hadj & Hk & Hi). cbn [oitems].
+    apply nf_app; [apply (nf_forest enc); assumption| |apply andb_false_r].
+    change (ITok (start_token k) :: oitems inner) with ([ITok (start_token k)] ++ oitems inner).
+    apply nf_app; [|apply (IH _ Hi)|reflexivity].
+    cbn. split; [split; [apply nf_start; exact Hk|apply start_not_string]|split; exact I].
+Qed.
+
+(* the end of the cue text: every open element is closed, innermost first *)
+Definition finish (s : pstate) : list elem := p_root (close_all (length (p_stack s)) s).
+Lemma pop_set_begin b s : pop (set_begin b s) = set_begin b (pop s).
+Proof.
+  destruct s as [r st rb bg]. unfold pop, set_begin. cbn [p_root p_stack p_ruby p_begin].
+  destruct st as [|f st]; [reflexivity|]. destruct (attach_closed f r st). reflexivity.
+Qed.
+Lemma close_all_set_begin b : forall n s, close_all n (set_begin b s) = set_begin b (close_all n s).
+Proof.
+  induction n as [|n IH]; intros s; [reflexivity|]. cbn [close_all].
+  change (p_stack (set_begin b s)) with (p_stack s). destruct (p_stack s); [reflexivity|].
+  rewrite pop_set_begin. apply IH.
+Qed.
+Lemma finish_set_begin b s : finish (set_begin b s) = finish s.
+Proof. unfold finish. change (p_stack (set_begin b s)) with (p_stack s). rewrite close_all_set_begin. reflexivity. Qed.
+Lemma add_leaf_length e s : length (p_stack (add_leaf e s)) = length (p_stack s).
+Proof.
+  destruct (add_leaf_facts e s) as (_ & _ & _ & _ & S'). destruct (p_stack s) as [|[tg k a d|tg b t] st]; rewrite S'; reflexivity.
+Qed.
+Lemma add_all_length es : forall s, length (p_stack (add_all es s)) = length (p_stack s).
+Proof.
+  induction es as [|e es IH]; intros s; [reflexivity|]. cbn [add_all fold_left].
+  fold (add_all es (add_leaf e s)). rewrite IH. apply add_leaf_length.
+Qed.
+(* an unclosed span with content es' ends at the end of the text like a closed one *)
+Lemma finish_open es' tg a s :
+  finish (add_all es' (open_node tg KSpan a s)) = finish (add_all [ENode KSpan a es'] s).
+Proof.
+  unfold finish at 1. rewrite add_all_length. cbn [open_node p_stack length close_all].
+  pose proof (open_stack (es', p_begin s) tg KSpan a s) as Es. unfold apply_res in Es. cbn [fst snd] in Es.
+  change (p_stack (set_begin (p_begin s) (add_all es' (open_node tg KSpan a s)))) with (p_stack (add_all es' (open_node tg KSpan a s))) in Es.
+  rewrite Es.
+  pose proof (pop_open (es', p_begin s) tg a s) as Ep. unfold apply_res in Ep. cbn [fst snd] in Ep.
+  rewrite pop_set_begin in Ep.
+  assert (E2 : pop (add_all es' (open_node tg KSpan a s)) = add_all [ENode KSpan a es'] s).
+  { destruct (add_all_facts es' (open_node tg KSpan a s)) as (_ & B & _).
+    rewrite <- (set_begin_same (pop (add_all es' (open_node tg KSpan a s)))).
+    replace (p_begin (pop (add_all es' (open_node tg KSpan a s)))) with (p_begin s).
+    - rewrite Ep. destruct (add_all_facts [ENode KSpan a es'] s) as (_ & B2 & _).
+      rewrite <- B2 at 1. apply set_begin_same.
+    - unfold pop. rewrite Es. destruct (attach_closed _ _ _). cbn [p_begin]. rewrite B. reflexivity. }
+  rewrite E2. unfold finish. rewrite add_all_length. reflexivity.
+Qed.
+
+Lemma parse_otree pb : forall t enc, wf_otree enc t -> forall s, at_tag enc s ->
+  exists s', handle_tokens pb (map item_token (oitems t)) s = inl s' /\
+             finish s' = finish (add_all (ospans pb (parent_is_p s) (p_begin s) t) s).
+Proof.
+  induction t as [ns|ns k inner IH]; intros enc W s R.
+  - destruct W as [Hw _]. cbn [oitems ospans]. fold (tokens_of_list ns). rewrite <- (app_nil_r (tokens_of_list ns)).
+    rewrite (parse_trees pb enc ns Hw [] s R). cbn [handle_tokens]. eexists. split; [reflexivity|].
+    unfold apply_res. apply finish_set_begin.
+  - destruct W as (Hw & _ & Hk & Hi). cbn [oitems ospans]. rewrite map_app. fold (tokens_of_list ns).
+    rewrite (parse_trees pb enc ns Hw _ s R).
+    destruct (spans_of pb (parent_is_p s) (p_begin s) ns) as [es n1].
+    set (s1 := apply_res (es, n1) s).
+    destruct (apply_facts (es, n1) s) as (P1 & B1 & _). fold s1 in P1, B1. cbn [snd] in B1.
+    pose proof (at_tag_apply enc (es, n1) s R) as R1. fold s1 in R1.
+    cbn [map item_token handle_tokens].
+    pose proof (handle_start_tag k s1 (push_span_ok s1 (or_introl (proj1 R1)))) as Hs.
+    destruct (start_token k) as [|tag cls an| |] eqn:Et; try contradiction.
+    cbn [handle_token]. rewrite Hs. rewrite P1.
+    set (a := expected_attrs k (base_attrs (parent_is_p s))).
+    destruct (regular_open (tag_name k) a s1) as (R2 & P2 & B2).
+    destruct (IH _ Hi _ R2) as (s' & E & F). exists s'. split; [exact E|].
+    rewrite F, P2, B2, B1. rewrite finish_open. unfold s1, apply_res. cbn [fst snd].
+    rewrite add_all_set_begin, finish_set_begin. rewrite add_all_app. reflexivity.
+Qed.
+
+(* the cue tree theorem for cue texts in which end tags are missing *)
+Theorem tree_unclosed_roundtrip pb t : wf_otree None t ->
+  parse_cue_text pb (print_cue_text (onodes t)) = inl (ospans pb true None t).
+Proof.
+  intros W. unfold parse_cue_text. rewrite (print_otree t None W).
+  rewrite tokenizer_items by (apply (nf_otree t None W)).
+  destruct (parse_otree pb t None W (mkP [] [] false None)) as (s' & E & F); [split; [exact I|reflexivity]|].
+  rewrite E. fold (finish s'). rewrite F. cbn [parent_is_p p_stack p_begin is_nil].
   rewrite add_all_root. reflexivity.
 Qed.
 
@@ -564,32 +736,47 @@ Qed.
 
 (* ================================================================ ruby (outside the recorded finding ruby-structure)
    A ruby element at the top level of the cue: <ruby> base <rt> annotation </rt> base <rt> … </rt> </ruby>, every base
-   one line of text (literal characters and references), every annotation a forest of text, timestamps and elements
-   with no line break directly inside rt.  What the finding covers is excluded by construction: ruby inside another
-   element, markup / timestamps / line breaks in a base, a line break directly in rt. *)
-Inductive tnode := TPlain (n : snode) | TRuby (segs : list (list piece * list snode)).
+   one line of text (literal characters and references), every annotation a forest of text, timestamps, elements and
+   ignored end tags with no line break directly inside rt; the last </rt> may be omitted (TRubyOmit: </ruby> then ends
+   the ruby text as well).  What the finding covers is excluded by construction: ruby inside another element,
+   markup / timestamps / line breaks in a base, a line break directly in rt. *)
+Definition seg := (list piece * list snode)%type.
+Inductive tnode := TPlain (n : snode) | TRuby (segs : list seg) | TRubyOmit (segs : list seg) (last : seg).
 
-Definition seg_node (sg : list piece * list snode) : list cnode * list cnode :=
+Definition seg_node (sg : seg) : list cnode * list cnode :=
   (map piece_node (fst sg), flat_map nodes_of (snd sg)).
 Definition tnodes_of (n : tnode) : list cnode :=
-  match n with TPlain n => nodes_of n | TRuby segs => [CRuby (map seg_node segs)] end.
+  match n with
+  | TPlain n => nodes_of n
+  | TRuby segs => [CRuby (map seg_node segs)]
+  | TRubyOmit segs last => [CRubyOmit (map seg_node (segs ++ [last]))]
+  end.
 
 Definition ruby_tok : token := TStart s_ruby None None.
 Definition rt_tok : token := TStart s_rt None None.
-Definition seg_items (sg : list piece * list snode) : list item :=
+Definition seg_open_items (sg : seg) : list item := IStr (fst sg) :: ITok rt_tok :: flat_map items_of (snd sg).
+Definition seg_items (sg : seg) : list item :=
   IStr (fst sg) :: ITok rt_tok :: flat_map items_of (snd sg) ++ [ITok (TEnd s_rt)].
 Definition titems_of (n : tnode) : list item :=
   match n with
   | TPlain n => items_of n
   | TRuby segs => ITok ruby_tok :: flat_map seg_items segs ++ [ITok (TEnd s_ruby)]
+  | TRubyOmit segs last => ITok ruby_tok :: flat_map seg_items segs ++ seg_open_items last ++ [ITok (TEnd s_ruby)]
   end.
 
 Definition one_line (ps : list piece) : Prop := mem_z 10 (pieces_svalue ps) = false.
-Definition rt_ok (n : snode) : Prop := match n with SText ps => one_line ps | _ => True end.
-Definition seg_ok (sg : list piece * list snode) : Prop :=
-  text_ok (fst sg) /\ one_line (fst sg) /\ Forall wf_node (snd sg) /\ no_adj (snd sg) /\ Forall rt_ok (snd sg).
-Definition wf_tnode (n : tnode) : Prop := match n with TPlain n => wf_node n | TRuby segs => Forall seg_ok segs end.
-Definition is_ttext (n : tnode) : bool := match n with TPlain n => is_text n | TRuby _ => false end.
+(* directly inside rt: text is one line; an ignored end tag is not </ruby> either (that one ends the ruby) *)
+Definition rt_ok (n : snode) : Prop :=
+  match n with SText ps => one_line ps | SEnd name => lower name <> s_ruby | _ => True end.
+Definition seg_ok (sg : seg) : Prop :=
+  text_ok (fst sg) /\ one_line (fst sg) /\ Forall (wf_node (Some s_rt)) (snd sg) /\ no_adj (snd sg) /\ Forall rt_ok (snd sg).
+Definition wf_tnode (n : tnode) : Prop :=
+  match n with
+  | TPlain n => wf_node None n
+  | TRuby segs => Forall seg_ok segs
+  | TRubyOmit segs last => Forall seg_ok segs /\ seg_ok last
+  end.
+Definition is_ttext (n : tnode) : bool := match n with TPlain n => is_text n | _ => false end.
 Fixpoint no_tadj (l : list tnode) : Prop :=
   match l with
   | x :: l' => match l' with y :: _ => is_ttext x && is_ttext y = false | [] => True end /\ no_tadj l'
@@ -598,7 +785,7 @@ Fixpoint no_tadj (l : list tnode) : Prop :=
 Definition wf_tnodes (ns : list tnode) : Prop := Forall wf_tnode ns /\ no_tadj ns.
 
 (* the expected ruby: Rbc holds one Rb per base, Rtc one Rt per annotation; the time is threaded base, annotation, … *)
-Fixpoint segs_elems (pb : Q) (now : option Q) (segs : list (list piece * list snode)) : list elem * list elem * option Q :=
+Fixpoint segs_elems (pb : Q) (now : option Q) (segs : list seg) : list elem * list elem * option Q :=
   match segs with
   | [] => ([], [], now)
   | sg :: segs' =>
@@ -611,6 +798,7 @@ Definition tspan_of (pb : Q) (now : option Q) (n : tnode) : list elem * option Q
   match n with
   | TPlain n => span_of pb true now n
   | TRuby segs => let '(rbs, rts, now') := segs_elems pb now segs in ([ERuby rbs rts], now')
+  | TRubyOmit segs last => let '(rbs, rts, now') := segs_elems pb now (segs ++ [last]) in ([ERuby rbs rts], now')
   end.
 Fixpoint tspans_of (pb : Q) (now : option Q) (ns : list tnode) : list elem * option Q :=
   match ns with
@@ -619,29 +807,66 @@ Fixpoint tspans_of (pb : Q) (now : option Q) (ns : list tnode) : list elem * opt
   end.
 
 (* ---- printing *)
-Lemma print_seg sg : Forall wf_node (snd sg) ->
+Lemma print_seg_open (sg : seg) : Forall (wf_node (Some s_rt)) (snd sg) ->
+  flat_map print_node (fst (seg_node sg)) ++ [60;114;116;62] ++ flat_map print_node (snd (seg_node sg))
+  = items_print (seg_open_items sg).
+Proof.
+  intros W. unfold seg_node, seg_open_items. cbn [fst snd].
+  change (IStr (fst sg) :: ITok rt_tok :: flat_map items_of (snd sg))
+    with ([IStr (fst sg); ITok rt_tok] ++ flat_map items_of (snd sg)).
+  rewrite !items_print_app. rewrite print_pieces.
+  fold (print_cue_text (flat_map nodes_of (snd sg))). rewrite (print_trees (Some s_rt)) by exact W.
+  unfold items_print. cbn [flat_map item_print]. rewrite ?app_nil_r, <- ?app_assoc. reflexivity.
+Qed.
+Lemma seg_items_open sg : seg_items sg = seg_open_items sg ++ [ITok (TEnd s_rt)].
+Proof. reflexivity. Qed.
+Lemma print_seg (sg : seg) : Forall (wf_node (Some s_rt)) (snd sg) ->
   flat_map print_node (fst (seg_node sg)) ++ [60;114;116;62] ++ flat_map print_node (snd (seg_node sg)) ++ [60;47;114;116;62]
   = items_print (seg_items sg).
 Proof.
-  intros W. unfold seg_node, seg_items. cbn [fst snd].
-  change (IStr (fst sg) :: ITok rt_tok :: flat_map items_of (snd sg) ++ [ITok (TEnd s_rt)])
-    with ([IStr (fst sg); ITok rt_tok] ++ flat_map items_of (snd sg) ++ [ITok (TEnd s_rt)]).
-  rewrite !items_print_app. rewrite print_pieces.
-  fold (print_cue_text (flat_map nodes_of (snd sg))). rewrite print_trees by exact W.
-  unfold items_print. cbn [flat_map item_print]. rewrite ?app_nil_r, <- ?app_assoc. reflexivity.
+  intros W. rewrite seg_items_open, items_print_app, <- (print_seg_open sg W). rewrite <- !app_assoc.
+  unfold items_print. cbn [flat_map item_print print_token s_rt app]. reflexivity.
+Qed.
+Lemma print_segs_closed segs : Forall seg_ok segs ->
+  flat_map (fun sg : list cnode * list cnode =>
+              flat_map print_node (fst sg) ++ [60;114;116;62] ++ flat_map print_node (snd sg) ++ [60;47;114;116;62]) (map seg_node segs)
+  = items_print (flat_map seg_items segs).
+Proof.
+  induction 1 as [|sg segs Hsg _ IH]; [reflexivity|].
+  cbn [map flat_map]. rewrite items_print_app, <- IH.
+  destruct Hsg as (_ & _ & Hw & _). rewrite <- (print_seg sg Hw). rewrite <- !app_assoc. reflexivity.
+Qed.
+Lemma print_segs_omit_cons pn sg sg' :
+  print_segs_omit pn (sg :: sg') =
+  pn (fst sg) ++ [60;114;116;62] ++ pn (snd sg) ++ match sg' with [] => [] | _ => [60;47;114;116;62] ++ print_segs_omit pn sg' end.
+Proof. reflexivity. Qed.
+Lemma print_segs_omitted segs last : Forall seg_ok segs -> seg_ok last ->
+  print_segs_omit (flat_map print_node) (map seg_node (segs ++ [last]))
+  = items_print (flat_map seg_items segs ++ seg_open_items last).
+Proof.
+  intros Hs (_ & _ & Hl & _). induction Hs as [|sg segs Hsg _ IH].
+  - cbn [app map flat_map]. rewrite print_segs_omit_cons. rewrite app_nil_r. apply print_seg_open. exact Hl.
+  - cbn [app map flat_map]. rewrite print_segs_omit_cons.
+    destruct (map seg_node (segs ++ [last])) as [|x l] eqn:E; [destruct segs; discriminate|].
+    rewrite IH. rewrite !items_print_app.
+    destruct Hsg as (_ & _ & Hw & _). rewrite <- (print_seg sg Hw). rewrite <- !app_assoc. reflexivity.
 Qed.
 Lemma print_ttree n : wf_tnode n -> flat_map print_node (tnodes_of n) = items_print (titems_of n).
 Proof.
-  destruct n as [n|segs]; cbn [wf_tnode tnodes_of titems_of]; [apply print_tree|]. intros W.
-  cbn [flat_map print_node]. rewrite app_nil_r.
-  change (ITok ruby_tok :: flat_map seg_items segs ++ [ITok (TEnd s_ruby)])
-    with ([ITok ruby_tok] ++ flat_map seg_items segs ++ [ITok (TEnd s_ruby)]).
-  rewrite !items_print_app. unfold items_print at 1 3. cbn [flat_map item_print]. rewrite ?app_nil_r.
-  change (print_token ruby_tok) with [60;114;117;98;121;62]. change (print_token (TEnd s_ruby)) with [60;47;114;117;98;121;62].
-  f_equal. f_equal.
-  induction W as [|sg segs Hsg _ IH]; [reflexivity|].
-  cbn [map flat_map]. rewrite items_print_app, <- IH.
-  destruct Hsg as (_ & _ & Hw & _). rewrite <- (print_seg sg Hw). rewrite <- !app_assoc. reflexivity.
+  destruct n as [n|segs|segs last]; cbn [wf_tnode tnodes_of titems_of]; [apply print_tree| |]; intros W.
+  - cbn [flat_map print_node]. rewrite app_nil_r.
+    change (ITok ruby_tok :: flat_map seg_items segs ++ [ITok (TEnd s_ruby)])
+      with ([ITok ruby_tok] ++ flat_map seg_items segs ++ [ITok (TEnd s_ruby)]).
+    rewrite !items_print_app. unfold items_print at 1 3. cbn [flat_map item_print]. rewrite ?app_nil_r.
+    change (print_token ruby_tok) with [60;114;117;98;121;62]. change (print_token (TEnd s_ruby)) with [60;47;114;117;98;121;62].
+    f_equal. f_equal. apply print_segs_closed. exact W.
+  - destruct W as [Ws Wl]. cbn [flat_map print_node]. rewrite app_nil_r.
+    replace (ITok ruby_tok :: flat_map seg_items segs ++ seg_open_items last ++ [ITok (TEnd s_ruby)])
+      with ([ITok ruby_tok] ++ (flat_map seg_items segs ++ seg_open_items last) ++ [ITok (TEnd s_ruby)])
+      by (cbn [app]; rewrite <- app_assoc; reflexivity).
+    rewrite !items_print_app. unfold items_print at 1 4. cbn [flat_map item_print]. rewrite ?app_nil_r.
+    change (print_token ruby_tok) with [60;114;117;98;121;62]. change (print_token (TEnd s_ruby)) with [60;47;114;117;98;121;62].
+    f_equal. f_equal. rewrite <- items_print_app. apply print_segs_omitted; assumption.
 Qed.
 Lemma print_ttrees ns : Forall wf_tnode ns ->
   print_cue_text (flat_map tnodes_of ns) = items_print (flat_map titems_of ns).
@@ -661,19 +886,22 @@ Lemma nf_rt_tok : nf_item (ITok rt_tok).
 Proof.
   apply nf_plain_tok. exists 114, [116]. unfold first_char, name_char. repeat split; try lia; repeat constructor; lia.
 Qed.
+Lemma nf_seg_open sg : seg_ok sg -> nf_items (seg_open_items sg).
+Proof.
+  intros (Hb & _ & Hw & Hadj & _). unfold seg_open_items.
+  change (IStr (fst sg) :: ITok rt_tok :: flat_map items_of (snd sg))
+    with ([IStr (fst sg); ITok rt_tok] ++ flat_map items_of (snd sg)).
+  apply nf_app.
+  - cbn [nf_items]. split; [apply nf_text; exact Hb|]. split; [|reflexivity]. split; [apply nf_rt_tok|split; exact I].
+  - apply (nf_forest (Some s_rt)); assumption.
+  - reflexivity.
+Qed.
 Lemma nf_seg sg : seg_ok sg -> nf_items (seg_items sg) /\ last_istr (seg_items sg) = false.
 Proof.
-  intros (Hb & _ & Hw & Hadj & _). unfold seg_items. split.
-  - change (IStr (fst sg) :: ITok rt_tok :: flat_map items_of (snd sg) ++ [ITok (TEnd s_rt)])
-      with ([IStr (fst sg); ITok rt_tok] ++ flat_map items_of (snd sg) ++ [ITok (TEnd s_rt)]).
-    apply nf_app.
-    + cbn [nf_items]. split; [apply nf_text; exact Hb|]. split; [|reflexivity]. split; [apply nf_rt_tok|split; exact I].
-    + apply nf_app; [apply nf_trees; split; assumption| |apply andb_false_r].
-      cbn [nf_items]. split; [apply nf_end_tag; repeat constructor; lia|split; exact I].
-    + reflexivity.
-  - change (IStr (fst sg) :: ITok rt_tok :: flat_map items_of (snd sg) ++ [ITok (TEnd s_rt)])
-      with ((IStr (fst sg) :: ITok rt_tok :: flat_map items_of (snd sg)) ++ [ITok (TEnd s_rt)]).
-    rewrite last_istr_app by discriminate. reflexivity.
+  intros H. rewrite seg_items_open. split.
+  - apply nf_app; [apply nf_seg_open; exact H| |apply andb_false_r].
+    cbn [nf_items]. split; [apply nf_end_tag; repeat constructor; lia|split; exact I].
+  - rewrite last_istr_app by discriminate. reflexivity.
 Qed.
 Lemma last_istr_false_app a b : last_istr a = false -> last_istr b = false -> last_istr (a ++ b) = false.
 Proof.
@@ -686,27 +914,38 @@ Proof.
   - apply nf_app; [exact N|exact IH1|]. rewrite L. reflexivity.
   - apply last_istr_false_app; assumption.
 Qed.
+Lemma nf_end_ruby : nf_items [ITok (TEnd s_ruby)].
+Proof. cbn [nf_items]. split; [apply nf_end_tag; repeat constructor; lia|split; exact I]. Qed.
 Lemma nf_ttree n : wf_tnode n -> nf_items (titems_of n).
 Proof.
-  destruct n as [n|segs]; cbn [wf_tnode titems_of]; [apply nf_tree|]. intros W.
-  destruct (nf_segs segs W) as [N L].
-  change (ITok ruby_tok :: flat_map seg_items segs ++ [ITok (TEnd s_ruby)])
-    with ([ITok ruby_tok] ++ flat_map seg_items segs ++ [ITok (TEnd s_ruby)]).
-  apply nf_app; [cbn; split; [apply nf_ruby_tok|split; exact I]| |reflexivity].
-  apply nf_app; [exact N| |rewrite L; reflexivity].
-  cbn [nf_items]. split; [apply nf_end_tag; repeat constructor; lia|split; exact I].
+  destruct n as [n|segs|segs last]; cbn [wf_tnode titems_of]; [apply nf_tree| |]; intros W.
+  - destruct (nf_segs segs W) as [N L].
+    change (ITok ruby_tok :: flat_map seg_items segs ++ [ITok (TEnd s_ruby)])
+      with ([ITok ruby_tok] ++ flat_map seg_items segs ++ [ITok (TEnd s_ruby)]).
+    apply nf_app; [cbn; split; [apply nf_ruby_tok|split; exact I]| |reflexivity].
+    apply nf_app; [exact N|apply nf_end_ruby|rewrite L; reflexivity].
+  - destruct W as [Ws Wl]. destruct (nf_segs segs Ws) as [N L].
+    change (ITok ruby_tok :: flat_map seg_items segs ++ seg_open_items last ++ [ITok (TEnd s_ruby)])
+      with ([ITok ruby_tok] ++ flat_map seg_items segs ++ seg_open_items last ++ [ITok (TEnd s_ruby)]).
+    apply nf_app; [cbn; split; [apply nf_ruby_tok|split; exact I]| |reflexivity].
+    apply nf_app; [exact N| |rewrite L; reflexivity].
+    apply nf_app; [apply nf_seg_open; exact Wl|apply nf_end_ruby|apply andb_false_r].
 Qed.
 Lemma titems_head n : head_istr (titems_of n) = is_ttext n.
-Proof. destruct n as [n|segs]; [apply items_head|reflexivity]. Qed.
+Proof. destruct n as [n|segs|segs last]; [apply items_head|reflexivity|reflexivity]. Qed.
 Lemma titems_last n : last_istr (titems_of n) = is_ttext n.
 Proof.
-  destruct n as [n|segs]; [apply items_last|]. cbn [titems_of is_ttext].
-  change (ITok ruby_tok :: flat_map seg_items segs ++ [ITok (TEnd s_ruby)])
-    with ((ITok ruby_tok :: flat_map seg_items segs) ++ [ITok (TEnd s_ruby)]).
-  rewrite last_istr_app by discriminate. reflexivity.
+  destruct n as [n|segs|segs last]; [apply items_last| |]; cbn [titems_of is_ttext].
+  - change (ITok ruby_tok :: flat_map seg_items segs ++ [ITok (TEnd s_ruby)])
+      with ((ITok ruby_tok :: flat_map seg_items segs) ++ [ITok (TEnd s_ruby)]).
+    rewrite last_istr_app by discriminate. reflexivity.
+  - replace (ITok ruby_tok :: flat_map seg_items segs ++ seg_open_items last ++ [ITok (TEnd s_ruby)])
+      with ((ITok ruby_tok :: flat_map seg_items segs ++ seg_open_items last) ++ [ITok (TEnd s_ruby)])
+      by (cbn [app]; rewrite <- app_assoc; reflexivity).
+    rewrite last_istr_app by discriminate. reflexivity.
 Qed.
 Lemma titems_nonempty n : titems_of n <> [].
-Proof. destruct n as [n|segs]; [apply items_nonempty|discriminate]. Qed.
+Proof. destruct n as [n|segs|segs last]; [apply items_nonempty|discriminate|discriminate]. Qed.
 Lemma nf_ttrees : forall ns, Forall wf_tnode ns -> no_tadj ns ->
   nf_items (flat_map titems_of ns) /\
   head_istr (flat_map titems_of ns) = match ns with n :: _ => is_ttext n | [] => false end.
@@ -721,76 +960,111 @@ Qed.
 
 (* ---- the parser *)
 Lemma in_rt_parent s : in_rt s -> parent_is_p s = false.
+Proof. unfold in_rt, parent_is_p. destruct (p_stack s); [contradiction|reflexivity]. Qed.
+(* inside rt an end tag other than </rt> and </ruby> is ignored *)
+Lemma handle_end_in_rt name s : in_rt s -> lower name <> s_rt -> lower name <> s_ruby -> handle_end name s = s.
 Proof.
-  intros [A T]. unfold parent_is_p. destruct (p_stack s); [contradiction|]. rewrite A. reflexivity.
+  unfold in_rt, handle_end. intros T H1 H2.
+  destruct (p_stack s) as [|[tg [| |] a d|tg b t] [|[tg2 k2 a2 d2|tg2 b2 t2] st]]; try contradiction.
+  destruct T as [-> ->]. cbn [frame_tag].
+  rewrite text_eqb_neq by (intros E; apply H1; symmetry; exact E).
+  rewrite text_eqb_neq by (intros E; apply H2; symmetry; exact E). reflexivity.
 Qed.
 (* a node of an annotation, the current parent being the rt element *)
-Lemma parse_rt_node pb att n : wf_node n -> rt_ok n -> forall rest s, in_rt s ->
-  handle_tokens pb att (tokens_of n ++ rest) s =
-  handle_tokens pb att rest (apply_res (span_of pb (parent_is_p s) (p_begin s) n) s).
+Lemma parse_rt_node pb n : wf_node (Some s_rt) n -> rt_ok n -> forall rest s, in_rt s ->
+  handle_tokens pb (tokens_of n ++ rest) s =
+  handle_tokens pb rest (apply_res (span_of pb (parent_is_p s) (p_begin s) n) s).
 Proof.
-  intros W Hrt rest s R. destruct n as [ps|t|k cs].
-  - inversion W as [? (Hne & Hg & Hv)| |]; subst. cbn [rt_ok] in Hrt. unfold one_line in Hrt.
+  intros W Hrt rest s R. destruct n as [ps|t|k cs|name].
+  - inversion W as [? ? (Hne & Hg & Hv)| | |]; subst. cbn [rt_ok] in Hrt. unfold one_line in Hrt.
     unfold tokens_of. cbn [items_of map item_token app handle_tokens handle_token span_of]. unfold handle_string.
     rewrite pieces_value_svalue by exact Hg. unfold split_on. rewrite split_no_lf by exact Hrt. cbn [app].
     cbn [push_text_lines lines_elems]. rewrite push_line_ok by (right; exact R).
     unfold apply_res. cbn [fst snd app add_all fold_left].
-    destruct (add_leaf_facts (ENode KSpan (with_begin (p_begin s) (base_attrs (parent_is_p s))) [EText (pieces_svalue ps)]) s) as (_ & _ & B & _).
+    destruct (add_leaf_facts (ENode KSpan (with_begin (p_begin s) (base_attrs (parent_is_p s))) [EText (pieces_svalue ps)]) s) as (_ & B & _).
     rewrite <- B at 2. rewrite set_begin_same. reflexivity.
-  - inversion W as [|? Ht|]; subst.
+  - inversion W as [|? ? Ht| |]; subst.
     unfold tokens_of. cbn [items_of map item_token app handle_tokens handle_token span_of].
     rewrite handle_ts_print by exact Ht. reflexivity.
-  - inversion W as [| |? ? Hk Hcs Hadj]; subst.
-    apply parse_tag; [exact Hk|exact Hcs| |destruct R as [A _]; exact A|apply push_span_ok; right; exact R].
+  - inversion W as [| |? ? ? Hk Hcs Hadj|]; subst.
+    apply parse_tag; [exact Hk|exact Hcs| |apply push_span_ok; right; exact R].
     apply Forall_forall. intros n _ Wn. apply parse_tree. exact Wn.
+  - inversion W as [| | |? ? [_ Hn]]; subst. cbn [rt_ok] in Hrt.
+    unfold tokens_of. cbn [items_of map item_token app handle_tokens handle_token span_of].
+    rewrite (handle_end_in_rt name s R Hn Hrt). rewrite apply_res_nil. reflexivity.
 Qed.
-Lemma parse_rt_nodes pb att cs : Forall wf_node cs -> Forall rt_ok cs -> forall rest s, in_rt s ->
-  handle_tokens pb att (tokens_of_list cs ++ rest) s =
-  handle_tokens pb att rest (apply_res (spans_of pb false (p_begin s) cs) s).
+Lemma parse_rt_nodes pb cs : Forall (wf_node (Some s_rt)) cs -> Forall rt_ok cs -> forall rest s, in_rt s ->
+  handle_tokens pb (tokens_of_list cs ++ rest) s =
+  handle_tokens pb rest (apply_res (spans_of pb false (p_begin s) cs) s).
 Proof.
   intros Hw Hrt rest s R. rewrite <- (in_rt_parent s R).
-  apply (parse_list pb att in_rt (fun n => wf_node n /\ rt_ok n) in_rt_apply); [| |exact R].
+  apply (parse_list pb in_rt (fun n => wf_node (Some s_rt) n /\ rt_ok n) in_rt_apply); [| |exact R].
   - apply Forall_forall. intros n _ [Wn Rn]. apply parse_rt_node; assumption.
   - clear -Hw Hrt. induction Hw; inversion Hrt; subst; constructor; [split; assumption|auto].
 Qed.
 
-Definition seg_tokens (sg : list piece * list snode) : list token := map item_token (seg_items sg).
-Lemma seg_tokens_eq sg : seg_tokens sg = TString (pieces_value (fst sg)) :: rt_tok :: tokens_of_list (snd sg) ++ [TEnd s_rt].
-Proof. unfold seg_tokens, seg_items, tokens_of_list. cbn [map item_token]. rewrite map_app. reflexivity. Qed.
-
+Definition seg_tokens (sg : seg) : list token := map item_token (seg_items sg).
+Definition seg_open_tokens (sg : seg) : list token := map item_token (seg_open_items sg).
+Lemma seg_open_tokens_eq sg : seg_open_tokens sg = TString (pieces_value (fst sg)) :: rt_tok :: tokens_of_list (snd sg).
+Proof. reflexivity. Qed.
+Lemma seg_tokens_eq sg : seg_tokens sg = seg_open_tokens sg ++ [TEnd s_rt].
+Proof. unfold seg_tokens, seg_open_tokens. rewrite seg_items_open, map_app. reflexivity. Qed.
 Lemma segs_tokens_flat segs : map item_token (flat_map seg_items segs) = flat_map seg_tokens segs.
 Proof. unfold seg_tokens. induction segs as [|x l IHl]; [reflexivity|]. cbn [flat_map]. rewrite map_app, IHl. reflexivity. Qed.
 
-(* one base and its annotation, the current parent being the ruby element *)
-Lemma parse_seg pb att sg : seg_ok sg -> forall rest r b t st bg,
-  handle_tokens pb att (seg_tokens sg ++ rest) (mkP r (FRuby b t :: st) 0 true bg) =
+Lemma has_none_somes (t : list elem) : has_none (map Some t) = false.
+Proof. induction t; [reflexivity|exact IHt]. Qed.
+Lemma fill_last_slot e (t : list elem) : fill_last e (map Some t ++ [None]) = map Some (t ++ [e]).
+Proof.
+  induction t as [|x t IH]; [reflexivity|]. cbn [map app fill_last].
+  replace (has_none (map Some t ++ [None])) with true; [rewrite IH; reflexivity|].
+  clear. induction t; [reflexivity|exact IHt].
+Qed.
+Lemma some_elems_somes (t : list elem) : some_elems (map Some t) = t.
+Proof. unfold some_elems. induction t as [|x t IH]; [reflexivity|]. cbn [map flat_map app]. rewrite IH. reflexivity. Qed.
+
+(* one base and the annotation that follows <rt>, the current parent being the ruby element; the rt stays open *)
+Lemma parse_seg_open pb sg : seg_ok sg -> forall rest r b (t : list elem) st bg,
+  handle_tokens pb (seg_open_tokens sg ++ rest) (mkP r (FRuby s_ruby b (map Some t) :: st) true bg) =
   let '(es, n1) := spans_of pb false bg (snd sg) in
-  handle_tokens pb att rest
-    (mkP r (FRuby (b ++ [ENode KRb no_attrs [ENode KSpan (with_begin bg no_attrs) [EText (pieces_svalue (fst sg))]]])
-                  (t ++ [ENode KRt no_attrs es]) :: st) 0 true n1).
+  handle_tokens pb rest
+    (mkP r (FNode s_rt KRt no_attrs es ::
+            FRuby s_ruby (b ++ [ENode KRb no_attrs [ENode KSpan (with_begin bg no_attrs) [EText (pieces_svalue (fst sg))]]])
+                  (map Some t ++ [None]) :: st) true n1).
 Proof.
   intros ((Hne & Hg & Hv) & Hone & Hw & Hadj & Hrt) rest r b t st bg.
-  rewrite seg_tokens_eq. cbn [app handle_tokens handle_token]. unfold handle_string.
+  rewrite seg_open_tokens_eq. cbn [app handle_tokens handle_token]. unfold handle_string.
   rewrite pieces_value_svalue by exact Hg. unfold split_on. rewrite split_no_lf by exact Hone. cbn [app].
-  cbn [push_text_lines]. unfold push_text_line. cbn [p_above p_stack p_ruby p_root p_begin Z.eqb].
-  replace (make_span_attrs (mkP r (FRuby b t :: st) 0 true bg)) with no_attrs by reflexivity.
+  cbn [push_text_lines]. unfold push_text_line. cbn [p_stack p_ruby p_root p_begin].
+  replace (make_span_attrs (mkP r (FRuby s_ruby b (map Some t) :: st) true bg)) with no_attrs by reflexivity.
   (* <rt> *)
-  set (s1 := mkP r (FRuby (b ++ [ENode KRb no_attrs [ENode KSpan (with_begin bg no_attrs) [EText (pieces_svalue (fst sg))]]]) t :: st) 0 true bg).
-  replace (handle_token pb att rt_tok s1) with (@inl pstate exn (open_node KRt no_attrs s1)) by reflexivity.
-  assert (R1 : in_rt (open_node KRt no_attrs s1)) by (split; [reflexivity|exact I]).
-  rewrite <- app_assoc. rewrite parse_rt_nodes by assumption.
-  change (p_begin (open_node KRt no_attrs s1)) with bg.
+  set (b1 := b ++ [ENode KRb no_attrs [ENode KSpan (with_begin bg no_attrs) [EText (pieces_svalue (fst sg))]]]).
+  set (s1 := mkP r (FNode s_rt KRt no_attrs [] :: FRuby s_ruby b1 (map Some t ++ [None]) :: st) true bg).
+  replace (handle_token pb rt_tok (mkP r (FRuby s_ruby b1 (map Some t) :: st) true bg)) with (@inl pstate exn s1) by reflexivity.
+  assert (R1 : in_rt s1) by (split; reflexivity).
+  rewrite parse_rt_nodes by assumption.
+  change (p_begin s1) with bg.
   destruct (spans_of pb false bg (snd sg)) as [es n1].
-  cbn [app handle_tokens handle_token]. unfold handle_end.
-  pose proof (in_rt_apply (es, n1) _ R1) as [A2 _]. rewrite A2. cbn [Z.eqb Z.ltb Z.compare].
-  rewrite open_stack. rewrite pop_open. cbn [fst snd].
-  unfold apply_res, s1, add_all, add_leaf, set_begin. cbn [fold_left fst snd attach p_root p_stack p_above p_ruby p_begin].
-  reflexivity.
+  unfold apply_res, s1, set_begin. cbn [fst snd]. rewrite add_all_top. reflexivity.
 Qed.
-Lemma parse_segs pb att : forall segs, Forall seg_ok segs -> forall rest r b t st bg,
-  handle_tokens pb att (flat_map seg_tokens segs ++ rest) (mkP r (FRuby b t :: st) 0 true bg) =
+(* … and its end tag </rt> *)
+Lemma parse_seg pb sg : seg_ok sg -> forall rest r b (t : list elem) st bg,
+  handle_tokens pb (seg_tokens sg ++ rest) (mkP r (FRuby s_ruby b (map Some t) :: st) true bg) =
+  let '(es, n1) := spans_of pb false bg (snd sg) in
+  handle_tokens pb rest
+    (mkP r (FRuby s_ruby (b ++ [ENode KRb no_attrs [ENode KSpan (with_begin bg no_attrs) [EText (pieces_svalue (fst sg))]]])
+                  (map Some (t ++ [ENode KRt no_attrs es])) :: st) true n1).
+Proof.
+  intros Hsg rest r b t st bg. rewrite seg_tokens_eq, <- app_assoc. rewrite parse_seg_open by exact Hsg.
+  destruct (spans_of pb false bg (snd sg)) as [es n1].
+  cbn [app handle_tokens handle_token]. unfold handle_end. cbn [p_stack frame_tag].
+  change (lower s_rt) with s_rt. rewrite text_eqb_refl.
+  unfold pop, attach_closed. cbn [p_stack p_root p_ruby p_begin fill_rt]. rewrite fill_last_slot. reflexivity.
+Qed.
+Lemma parse_segs pb : forall segs, Forall seg_ok segs -> forall rest r b (t : list elem) st bg,
+  handle_tokens pb (flat_map seg_tokens segs ++ rest) (mkP r (FRuby s_ruby b (map Some t) :: st) true bg) =
   let '(rbs, rts, n2) := segs_elems pb bg segs in
-  handle_tokens pb att rest (mkP r (FRuby (b ++ rbs) (t ++ rts) :: st) 0 true n2).
+  handle_tokens pb rest (mkP r (FRuby s_ruby (b ++ rbs) (map Some (t ++ rts)) :: st) true n2).
 Proof.
   induction 1 as [|sg segs Hsg _ IH]; intros rest r b t st bg.
   - cbn [flat_map app segs_elems]. rewrite ?app_nil_r. reflexivity.
@@ -798,54 +1072,80 @@ Proof.
     destruct (spans_of pb false bg (snd sg)) as [es n1]. rewrite IH.
     destruct (segs_elems pb n1 segs) as [[rbs rts] n2]. rewrite <- !app_assoc. reflexivity.
 Qed.
+Lemma segs_elems_app pb : forall a b now,
+  segs_elems pb now (a ++ b) =
+  let '(rb1, rt1, n1) := segs_elems pb now a in
+  let '(rb2, rt2, n2) := segs_elems pb n1 b in (rb1 ++ rb2, rt1 ++ rt2, n2).
+Proof.
+  induction a as [|sg a IH]; intros b now.
+  - cbn [app segs_elems]. destruct (segs_elems pb now b) as [[rb2 rt2] n2]. reflexivity.
+  - cbn [app segs_elems]. destruct (spans_of pb false now (snd sg)) as [es n1]. rewrite IH.
+    destruct (segs_elems pb n1 a) as [[rb1 rt1] n1']. destruct (segs_elems pb n1' b) as [[rb2 rt2] n2]. reflexivity.
+Qed.
 
 (* the paragraph is the current parent and no ruby is open *)
-Definition at_p (s : pstate) : Prop := p_above s = 0 /\ p_stack s = [] /\ p_ruby s = false.
-Lemma at_p_regular s : at_p s -> regular s.
-Proof. intros (A & S & _). split; [exact A|rewrite S; exact I]. Qed.
+Definition at_p (s : pstate) : Prop := p_stack s = [] /\ p_ruby s = false.
+Lemma at_p_at_tag s : at_p s -> at_tag None s.
+Proof. intros (S & _). unfold at_tag, regular, top_tag. rewrite S. split; [exact I|reflexivity]. Qed.
 Lemma at_p_apply r s : at_p s -> at_p (apply_res r s).
 Proof.
-  intros (A & S & Rb). unfold apply_res, at_p. cbn [p_above p_stack p_ruby set_begin].
-  destruct (add_all_facts (fst r) s) as (_ & _ & A' & R'). rewrite A', R'. split; [exact A|]. split; [|exact Rb].
+  intros (S & Rb). unfold apply_res, at_p. cbn [p_stack p_ruby set_begin].
+  destruct (add_all_facts (fst r) s) as (_ & _ & R' & _). rewrite R'. split; [|exact Rb].
   clear -S. revert s S. induction (fst r) as [|e es IH]; intros s S; [exact S|]. cbn [add_all fold_left]. apply IH.
   destruct (add_leaf_facts e s) as (_ & _ & _ & _ & S'). rewrite S in S'. exact S'.
 Qed.
 
 Definition ttokens_of (n : tnode) : list token := map item_token (titems_of n).
-Lemma parse_tnode pb att n : wf_tnode n -> forall rest s, at_p s ->
-  handle_tokens pb att (ttokens_of n ++ rest) s =
-  handle_tokens pb att rest (apply_res (tspan_of pb (p_begin s) n) s).
+Lemma parse_tnode pb n : wf_tnode n -> forall rest s, at_p s ->
+  handle_tokens pb (ttokens_of n ++ rest) s =
+  handle_tokens pb rest (apply_res (tspan_of pb (p_begin s) n) s).
 Proof.
-  intros W rest s P. destruct n as [n|segs]; cbn [wf_tnode] in W.
-  - pose proof (parse_tree pb att n W rest s (at_p_regular s P)) as E. unfold ttokens_of. cbn [titems_of tspan_of].
+  intros W rest s P. destruct n as [n|segs|segs last]; cbn [wf_tnode] in W.
+  - pose proof (parse_tree pb n None W rest s (at_p_at_tag s P)) as E. unfold ttokens_of. cbn [titems_of tspan_of].
     fold (tokens_of n). rewrite E.
-    replace (parent_is_p s) with true; [reflexivity|]. destruct P as (A & S & _). unfold parent_is_p. rewrite A, S. reflexivity.
-  - destruct s as [r st ab rb bg]. destruct P as (A & S & Rb). cbn [p_above p_stack p_ruby] in A, S, Rb. subst.
+    replace (parent_is_p s) with true; [reflexivity|]. destruct P as (S & _). unfold parent_is_p. rewrite S. reflexivity.
+  - destruct s as [r st rb bg]. destruct P as (S & Rb). cbn [p_stack p_ruby] in S, Rb. subst.
     unfold ttokens_of. cbn [titems_of map item_token]. rewrite map_app. cbn [map item_token app handle_tokens handle_token].
     rewrite <- app_assoc. rewrite segs_tokens_flat.
-    replace (handle_token pb att ruby_tok (mkP r [] 0 false bg)) with (@inl pstate exn (mkP r [FRuby [] []] 0 true bg)) by reflexivity.
+    replace (handle_token pb ruby_tok (mkP r [] false bg)) with (@inl pstate exn (mkP r [FRuby s_ruby [] (map Some [])] true bg)) by reflexivity.
     rewrite parse_segs by exact W. cbn [tspan_of p_begin].
     destruct (segs_elems pb bg segs) as [[rbs rts] n2].
-    cbn [app handle_tokens handle_token]. unfold handle_end. cbn [p_above Z.eqb Z.ltb Z.compare p_stack].
-    unfold pop. cbn [p_stack p_root p_above p_ruby p_begin close_frame attach].
-    unfold apply_res, add_all, add_leaf, set_begin. cbn [fold_left fst snd attach p_root p_stack p_above p_ruby p_begin]. reflexivity.
+    cbn [app handle_tokens handle_token]. unfold handle_end. cbn [p_stack frame_tag].
+    change (lower s_ruby) with s_ruby. rewrite text_eqb_refl.
+    unfold pop, attach_closed. cbn [p_stack p_root p_ruby p_begin close_frame attach]. rewrite some_elems_somes.
+    unfold apply_res, add_all, add_leaf, set_begin. cbn [fold_left fst snd attach p_root p_stack p_ruby p_begin]. reflexivity.
+  - destruct W as [Ws Wl]. destruct s as [r st rb bg]. destruct P as (S & Rb). cbn [p_stack p_ruby] in S, Rb. subst.
+    unfold ttokens_of. cbn [titems_of map item_token]. rewrite !map_app. cbn [map item_token app handle_tokens handle_token].
+    rewrite <- !app_assoc. rewrite segs_tokens_flat. fold (seg_open_tokens last).
+    replace (handle_token pb ruby_tok (mkP r [] false bg)) with (@inl pstate exn (mkP r [FRuby s_ruby [] (map Some [])] true bg)) by reflexivity.
+    rewrite parse_segs by exact Ws. cbn [tspan_of p_begin]. rewrite segs_elems_app.
+    destruct (segs_elems pb bg segs) as [[rbs rts] n2].
+    rewrite parse_seg_open by exact Wl. cbn [segs_elems].
+    destruct (spans_of pb false n2 (snd last)) as [es n3].
+    (* </ruby> ends the open rt and the ruby *)
+    cbn [app handle_tokens handle_token]. unfold handle_end. cbn [p_stack frame_tag].
+    change (lower s_ruby) with s_ruby. change (text_eqb s_rt s_ruby) with false. cbn iota. rewrite text_eqb_refl.
+    unfold pop at 2. unfold attach_closed. cbn [p_stack p_root p_ruby p_begin fill_rt]. rewrite fill_last_slot.
+    unfold pop, attach_closed. cbn [p_stack p_root p_ruby p_begin close_frame attach]. rewrite some_elems_somes.
+    unfold apply_res, add_all, add_leaf, set_begin. cbn [fold_left fst snd attach p_root p_stack p_ruby p_begin app].
+    rewrite ?app_nil_r. reflexivity.
 Qed.
 
-Lemma parse_tnodes pb att : forall ns, Forall wf_tnode ns -> forall rest s, at_p s ->
-  handle_tokens pb att (map item_token (flat_map titems_of ns) ++ rest) s =
-  handle_tokens pb att rest (apply_res (tspans_of pb (p_begin s) ns) s).
+Lemma parse_tnodes pb : forall ns, Forall wf_tnode ns -> forall rest s, at_p s ->
+  handle_tokens pb (map item_token (flat_map titems_of ns) ++ rest) s =
+  handle_tokens pb rest (apply_res (tspans_of pb (p_begin s) ns) s).
 Proof.
   induction 1 as [|n ns Hn _ IH]; intros rest s P.
   - cbn [flat_map map app tspans_of]. rewrite apply_res_nil. reflexivity.
   - cbn [flat_map tspans_of]. rewrite map_app, <- app_assoc. fold (ttokens_of n). rewrite parse_tnode by assumption.
-    destruct (tspan_of pb (p_begin s) n) as [e1 n1]. destruct (apply_facts (e1, n1) s) as (_ & B').
+    destruct (tspan_of pb (p_begin s) n) as [e1 n1]. destruct (apply_facts (e1, n1) s) as (_ & B' & _).
     rewrite IH by (apply at_p_apply; exact P). rewrite B'. cbn [snd].
     destruct (tspans_of pb n1 ns) as [e2 n2]. rewrite apply_res_app. reflexivity.
 Qed.
 
 (* the cue tree theorem with ruby: every cue text of the grammar outside the recorded finding *)
-Theorem tree_ruby_roundtrip pb att ns : wf_tnodes ns ->
-  parse_cue_text pb att (print_cue_text (flat_map tnodes_of ns)) = inl (fst (tspans_of pb None ns)).
+Theorem tree_ruby_roundtrip pb ns : wf_tnodes ns ->
+  parse_cue_text pb (print_cue_text (flat_map tnodes_of ns)) = inl (fst (tspans_of pb None ns)).
 Proof.
   intros [Hw Hadj]. unfold parse_cue_text. rewrite print_ttrees by exact Hw.
   rewrite tokenizer_items by (apply nf_ttrees; assumption).
@@ -860,27 +1160,39 @@ Proof.
   intros H. split; [discriminate|]. split; [constructor; [exact H|constructor]|].
   unfold pieces_svalue. cbn. rewrite app_nil_r. exact H.
 Qed.
-(* a<LF>b, <b><c.red>x</c><00:12.000>y</b>, <v Tom & J>z&lrm;</v>, <lang en></lang> *)
+Ltac wf_tac G :=
+  repeat (first [exact G | exact I | apply lit_ok; discriminate | discriminate | reflexivity
+                | (let E := fresh "E" in intro E; vm_compute in E; discriminate E)
+                | (unfold pieces_svalue; cbn; discriminate) | (unfold class_ok, name_char; repeat constructor; lia)
+                | (unfold one_line, pieces_svalue; cbn; reflexivity)
+                | (cbn; unfold digit_ok; lia) | constructor]).
+(* a<LF>b</b><b><c.red>x</c></i><00:12.000></I>y</b></b><v Tom & J>z&lrm;</v><lang en></lang>
+   (the first </b> has nothing to close, </i> and </I> sit in a b element, the last </b> follows the end of that element) *)
 Example tree_example :
-  wf_nodes [SText [PLit [97;10;98]];
-            STag TgB [STag (TgC [[114;101;100]]) [SText [PLit [120]]]; STs (mkTs None 0 12 0); SText [PLit [121]]];
+  wf_nodes [SText [PLit [97;10;98]]; SEnd [98];
+            STag TgB [STag (TgC [[114;101;100]]) [SText [PLit [120]]]; SEnd [105]; STs (mkTs None 0 12 0); SEnd [73]; SText [PLit [121]]];
+            SEnd [98];
             STag (TgV [84;111;109;32;38;32;74]) [SText [PLit [122]; PRef (RefNamed [108;114;109])]]; STag (TgLang [101;110]) []].
 Proof.
   assert (G : ref_good (RefNamed [108;114;109]))
     by (split; [apply named_ref_ok; repeat constructor; lia|vm_compute; reflexivity]).
-  split; [|cbn; repeat split; reflexivity].
-  repeat (first [exact G | exact I | apply lit_ok; discriminate | discriminate | reflexivity
-                | (unfold pieces_svalue; cbn; discriminate) | (unfold class_ok, name_char; repeat constructor; lia)
-                | (cbn; unfold digit_ok; lia) | constructor]).
+  split; [|cbn; repeat split; reflexivity]. wf_tac G.
 Qed.
-(* x <ruby>base<rt>an<b>n</b></rt>b2<rt></rt></ruby> y *)
+(* a<b>x<i>y</b>z : </b> is ignored inside the i element, so neither element is closed *)
+Example tree_unclosed_example :
+  wf_otree None (OOpen [SText [PLit [97]]] TgB (OOpen [SText [PLit [120]]] TgI
+                   (ODone [SText [PLit [121]]; SEnd [98]; SText [PLit [122]]]))).
+Proof. cbn [wf_otree no_adj is_text andb]. wf_tac I. Qed.
+(* x <ruby>base<rt>an<b>n</b></x></rt>b2<rt></rt></ruby> y <ruby>b3<rt>c</ruby> *)
 Example tree_ruby_example :
   wf_tnodes [TPlain (SText [PLit [120]]);
-             TRuby [([PLit [98;97;115;101]], [SText [PLit [97;110]]; STag TgB [SText [PLit [110]]]]); ([PLit [98;50]], [])];
-             TPlain (SText [PLit [121]])].
+             TRuby [([PLit [98;97;115;101]], [SText [PLit [97;110]]; STag TgB [SText [PLit [110]]]; SEnd [120]]); ([PLit [98;50]], [])];
+             TPlain (SText [PLit [121]]);
+             TRubyOmit [] ([PLit [98;51]], [SText [PLit [99]]])].
 Proof.
   split; [|cbn; repeat split; reflexivity].
   repeat (first [exact I | apply lit_ok; discriminate | discriminate | reflexivity
+                | (let E := fresh "E" in intro E; vm_compute in E; discriminate E)
                 | (unfold one_line, pieces_svalue; cbn; reflexivity) | (cbn; repeat split; reflexivity) | constructor]).
 Qed.
 
